@@ -762,6 +762,39 @@ def translate_disambig(repo: Path):
     return {"skip_noninit": skip}
 
 
+def translate_threads(repo: Path):
+    file = "src/cattrs/gen/_consts.py"
+    mod = ast.parse((repo / file).read_text())
+    val = None
+    for n in mod.body:
+        if isinstance(n, ast.Assign) and _src(n.targets[0]) == "already_generating":
+            val = _src(n.value)
+    if val is None:
+        raise T1Unrecognised(file, 0, "already_generating not defined")
+    imports = [_src(n) for n in mod.body if isinstance(n, (ast.Import, ast.ImportFrom))]
+    if val == "local()" and "from threading import local" in imports:
+        tl = True
+    elif val in ("threading.local()",) and "import threading" in imports:
+        tl = True
+    elif val in ("SimpleNamespace()", "types.SimpleNamespace()", "_Namespace()", "object()"):
+        tl = False
+    else:
+        raise T1Unrecognised(file, 0, f"already_generating = {val}")
+    # every generator guards with `if cl in working_set: raise RecursionError()` and removes the class in a finally
+    sites = 0
+    for f in ("src/cattrs/gen/__init__.py", "src/cattrs/gen/typeddicts.py", "src/cattrs/cols.py"):
+        src = (repo / f).read_text()
+        sites += src.count("working_set.add(cl)")
+        if src.count("working_set.add(cl)") != src.count("working_set.remove(cl)"):
+            raise T1Unrecognised(f, 0, "working_set.add / remove are not paired")
+    return {"thread_local": tl, "guarded_generators": sites}
+
+
+def emit_threads(t) -> str:
+    return ("(* GENERATED by harness/t1_translate.py from src/cattrs/gen/_consts.py -- do not edit *)\n"
+            f"Definition src_thread_local : bool := {_coq_bool(t['thread_local'])}.\n")
+
+
 def emit_unions(u) -> str:
     return ("(* GENERATED by harness/t1_translate.py from src/cattrs/strategies/_unions.py -- do not edit *)\n"
             f"Definition src_lit_pairs : bool := {_coq_bool(u['literal_pairs'])}.\n")
@@ -822,6 +855,15 @@ def main():
         summary["ok"] = False
         summary["errors"].append(str(e))
         summary["sections"]["unions"] = False
+    try:
+        th = translate_threads(repo)
+        write("ThreadSrc.v", emit_threads(th))
+        summary["threads"] = th
+        summary["sections"]["threads"] = True
+    except T1Unrecognised as e:
+        summary["ok"] = False
+        summary["errors"].append(str(e))
+        summary["sections"]["threads"] = False
     try:
         dis = translate_disambig(repo)
         write("DisSrc.v", emit_disambig(dis))
